@@ -1,5 +1,5 @@
 // streaming_kzg: the verifier key derived from the two committer keys (`From<&CommitterKey>` in time.rs, `From<&CommitterKeyStream>` in space.rs)
-// and `CommitterKey::max_eval_points`  (C09: the derived key is a restriction of the committer key; C14: both provers share one verifier key)
+// `CommitterKey::max_eval_points`, and the homomorphic `+` of evaluation proofs  (C09: the derived key is a restriction of the committer key; C14: both provers share one verifier key)
 // The two trait methods `From::from` are emitted as inherent functions `from_committer_key` / `from_stream` (Verus accepts no `requires` on a
 // trait impl, and one type cannot carry two inherent `from`); the BODIES are the extracted text.
 //@use core ops_gen std
@@ -12,6 +12,7 @@ pub mod streaming_kzg {
 //@struct file=poly-commit/src/streaming_kzg/mod.rs name=VerifierKey
 //@struct file=poly-commit/src/streaming_kzg/time.rs name=CommitterKey
 //@struct file=poly-commit/src/streaming_kzg/space.rs name=CommitterKeyStream
+//@struct file=poly-commit/src/streaming_kzg/mod.rs name=EvaluationProof
     // ---- trusted environment ----
     // `stream.iter().last().expect(..)`: the last element of the stream; an empty stream aborts (divergence => non-emptiness as a postcondition)
     #[verifier::external_body] pub fn stream_last_g1(v: &Vec<G1Affine>) -> (r: G1Affine) ensures v@.len() >= 1, r == v@[v@.len() - 1] { unimplemented!() }
@@ -52,6 +53,15 @@ pub mod streaming_kzg {
 //@rw 1 /(?s)\*ck\s*\.powers_of_g\s*\.iter\(\)\s*\.last\(\)\s*\.expect\(LENGTH_MISMATCH_MSG\)\s*\.borrow\(\)/ => stream_last_g1(&ck.powers_of_g)
 //@rw 1 /ck\.powers_of_g2\.to_vec\(\)/ => vec_g2_to_vec(&ck.powers_of_g2)
 //@rw 1 /vec!\[g\]/ => vec1_g1(g)
+//@end
+    }
+    impl EvaluationProof {
+//@fn id=streaming.evaluation_proof_add file=poly-commit/src/streaming_kzg/mod.rs scope="impl<E: Pairing> Add for EvaluationProof<E>" name=add props=C14,C08
+        // (`Add::add` emitted as an inherent function; `Self::Output` is `Self`)
+        pub fn add_proof(self, rhs: Self) -> (r: EvaluationProof)
+        ensures
+            r.0@ == f_add(self.0@, rhs.0@),     // name=streaming.evaluation_proof_add.sum_of_the_group_elements props=C14,C08
+//@body
 //@end
     }
 }
